@@ -330,6 +330,20 @@ pub fn gen_free_text(rng: &mut Rng, max: usize, ascii_only: bool) -> String {
 }
 
 pub fn gen_v1_spec(rng: &mut Rng, ascii_only: bool) -> V1Spec {
+    let mut spec = gen_v1_spec_inner(rng, ascii_only);
+    // relations between independent fields: same endpoint twice, same port twice
+    if spec.proto != V1Proto::Unknown {
+        if rng.chance(1, 8) {
+            spec.dst = spec.src.clone();
+        }
+        if rng.chance(1, 8) {
+            spec.dport = spec.sport.clone();
+        }
+    }
+    spec
+}
+
+fn gen_v1_spec_inner(rng: &mut Rng, ascii_only: bool) -> V1Spec {
     let proto = match rng.below(5) {
         0 | 1 => V1Proto::Tcp4,
         2 | 3 => V1Proto::Tcp6,
@@ -558,6 +572,21 @@ pub fn gen_v2_spec(rng: &mut Rng, big_ok: bool) -> V2Spec {
             }
         }
     }
+    if fam != 0 && rng.chance(1, 8) {
+        // source and destination identical
+        let half = match fam {
+            1 => 4,
+            2 => 16,
+            _ => 108,
+        };
+        let (a, b) = addr.split_at_mut(half);
+        b[..half].copy_from_slice(a);
+        if fam != 3 {
+            let p = 2 * half;
+            addr[p + 2] = addr[p];
+            addr[p + 3] = addr[p + 1];
+        }
+    }
     if fam == 3 && rng.chance(1, 2) {
         // path-looking unix addresses
         addr = vec![0u8; 216];
@@ -613,7 +642,10 @@ pub fn gen_v2_spec(rng: &mut Rng, big_ok: bool) -> V2Spec {
             }
         }
         let l = gen_tlv_value_len(rng, remaining - 3);
-        let t = if rng.chance(3, 4) {
+        let t = if rng.chance(1, 16) {
+            // type byte equal to the low length byte
+            (l & 0xff) as u8
+        } else if rng.chance(3, 4) {
             *rng.pick(TLV_TYPES)
         } else {
             rng.byte()
